@@ -1,4 +1,4 @@
-CONSTANTS MaxInfo = 99  D = 5  Kinds = {"rej", "ver"}  MaxBurst = 7  Rand = TRUE
+CONSTANTS MaxInfo = 99  D = 3  Kinds = {"rej", "unk", "ver", "feat"}  MaxBurst = 2  Rand = FALSE
 SPECIFICATION GSpec
 INVARIANTS Emit
 CHECK_DEADLOCK FALSE
